@@ -79,6 +79,8 @@ inductive Op
   | decode (src : Src) (off : Nat) -- unpacked = unpack_serializable_list(payloads, src, offset=off)   (consume_all)
   | assertValid                   -- if not signature_valid: raise PacketDecodingError
   | lookupPeer                    -- peer = network.verified_by_public_key_bin.get(auth.public_key_bin)
+  | orLookupByAddr                -- peer = peer or network.get_verified_by_address(source_address)   (NOT in the code
+                                  --   today; translated so that such an `or`-chain fails the guard, not the translator)
   | appendData                    -- output = [*unpacked, data]
   | callPeer                      -- return func(self, peer or Peer(auth.public_key_bin, source_address), *unpacked)
   | callAddr                      -- return func(self, source_address, *unpacked)
@@ -113,6 +115,9 @@ structure Env (P : Type) where
   decode : Bytes → Nat → Option P
   /-- `Network.verified_by_public_key_bin.get`: carried key bytes ↦ canonical key of the stored `Peer` -/
   net : Bytes → Option Bytes
+  /-- `Network.get_verified_by_address(source_address)`: key of whichever verified peer is recorded at the source
+      address of this datagram (unrelated to what the datagram carries) -/
+  netAddr : Option Bytes := none
 
 structure Regs (P : Type) where
   auth : Option Bytes := none
@@ -154,6 +159,11 @@ def step {P : Type} (E : Env P) (data : Bytes) (r : Regs P) : Op → Except (Out
     match r.auth with
     | none => .error .stuck
     | some kb => .ok { r with peer := some (E.net kb) }
+  | .orLookupByAddr =>
+    match r.peer with
+    | none => .error .stuck
+    | some (some _) => .ok r
+    | some none => .ok { r with peer := some E.netAddr }
   | .appendData => .ok { r with wd := some data }
   | .callPeer =>
     match r.auth, r.peer, r.unpacked with
